@@ -208,7 +208,7 @@ impl Check for ExtractCheck {
     }
     fn budget(&self, tier: Tier) -> u64 {
         match tier {
-            Tier::Quick => 8_000,
+            Tier::Quick => 20_000,
             Tier::Thorough => 200_000,
         }
     }
